@@ -65,6 +65,14 @@ def types_for(tier):
         if tier != "quick" or i % 3 == 0:
             if emit(d):
                 yield d
+    # arrays of 8..40 elements of every element kind, also inside nested delimited objects whose header may end before them
+    i8, u8 = ["int", 8], ["uint", 8, "s"]
+    for e in (i8, u8, ["byte"], ["utf8"], ["float", 32, "s"], ["uint", 16, "s"], ["struct", [i8]], ["delim", ["struct", [u8]], 16]):
+        for n in ((8, 16, 17) if tier == "quick" else (8, 9, 15, 16, 17, 32, 33, 40)):
+            arr = ["varr", e, n] if e[0] == "utf8" else ["farr", e, n]
+            for d in (["struct", [arr]], ["struct", [["delim", ["struct", [u8, arr]], L.tmax(["struct", [u8, arr]]) + 8], u8]], ["struct", [["bool"], ["varr", e, n]]]):
+                if emit(d):
+                    yield d
     for d in T.medium(tier, max_cap=17 if tier == "quick" else 65):  # more than three of everything (decoding cost grows with the capacity)
         if emit(d):
             yield d
